@@ -9,6 +9,10 @@ class Uninterp(Exception):
     pass
 
 
+class PyList(list):
+    """value of a Python list display (as opposed to an array): `+` concatenates"""
+
+
 class PolyInterp:
     def __init__(self, call_hook=None, np_names=('np', 'numpy', 'math')):
         self.env = {}
@@ -57,7 +61,9 @@ class PolyInterp:
             return self.ev(e.operand)
         if isinstance(e, ast.BinOp):
             return self.binop(e.op, self.ev(e.left), self.ev(e.right))
-        if isinstance(e, (ast.Tuple, ast.List)):
+        if isinstance(e, ast.List):
+            return PyList(self.ev(x) for x in e.elts)
+        if isinstance(e, ast.Tuple):
             return [self.ev(x) for x in e.elts]
         if isinstance(e, ast.Subscript):
             base = self.ev(e.value)
@@ -102,6 +108,8 @@ class PolyInterp:
             if isinstance(op, ast.Pow):
                 return x ** y
             raise Uninterp('operator')
+        if isinstance(a, PyList) and isinstance(b, PyList) and isinstance(op, ast.Add):
+            return PyList(list(a) + list(b))
         if isinstance(a, list) and isinstance(b, list):
             if len(a) != len(b):
                 raise Uninterp('shape mismatch')
@@ -127,7 +135,8 @@ class PolyInterp:
                 return self.ev(f.value)
             name = '.' + f.attr
         if name in ('np.array', 'np.asarray', 'float', 'np.squeeze') and e.args:
-            return self.ev(e.args[0])
+            v = self.ev(e.args[0])
+            return list(v) if isinstance(v, PyList) else v
         if name == 'np.cross' and len(e.args) == 2:
             u, v = self.ev(e.args[0]), self.ev(e.args[1])
             if not (isinstance(u, list) and isinstance(v, list) and len(u) == 3 and len(v) == 3):
